@@ -53,7 +53,7 @@ class SimSpec:
         for i in range(self.n[tier]):
             s = sub_seed(seed, i, self.prop)
             rng = random.Random(s)
-            scen = self.gen(rng, i, tier)
+            scen = scenario.normalize(self.gen(rng, i, tier))
             out.append(sim_task(scen, s, i))
         return out
 
@@ -214,6 +214,7 @@ class C03(SimSpec):
                         j["group"] = scen["groups"][0]["name"]
                     scen["user"] = {}
                 scen["dag_id"] = i
+                scenario.normalize(scen)
                 out.append(sim_task(scen, sub_seed(s, v, "sched"), k))
                 k += 1
         return out
